@@ -11,6 +11,13 @@ CLAIMED = {
  "C01": ("A", "exploration", "Seeded simulated histories (several holders, spenders, minter, re-entrant receiver contracts, injected early/late sub-call failures, migrations) against the real cw20-base; after every event supply == sum of paged balances, and every call that returned Ok satisfies the exact per-account delta relation from in-frame snapshots; failed transactions must change nothing.", "cw-multi-test App as wasmd stub; MockApi/MockStorage; sampling, not proof", "5/C01"),
  "C02": ("A", "exploration", "Same simulated chain, workload biased to allowances with expiries placed around the clock and owner-decrease racing spender-draw in both orders; per-call allowance/balance relation, cumulative grant/draw ledger over committed calls, Receive notification checked against the Sink delivery log.", "as C01; expiry fields after removal are observed, not predicted", "5/C02"),
  "C13": ("A", "exploration", "Simulated histories of Mint / Burn / UpdateMinter by minter, former minters and strangers at cap boundaries; supply may rise only inside a Mint frame whose sender is the in-frame pre-minter; cap fixed at instantiation; renounce is permanent.", "as C01", "5/C13"),
+ "C03": ("C", "exploration", "Seeded voting histories on both multisigs (zero-weight members and proposers, all three threshold kinds on and around legal bounds, votes of all four kinds in scheduler order, clock jumps to expiry -1/0/+1); after every event the reported status of every proposal is compared with the cw3 rules evaluated in exact integer arithmetic on the ballots paged from ListVotes, the reported total and expiry; Execute/Close admission checked against the same verdict.", "as C01; thresholds with more than 9 decimals may be one vote more lenient (never stricter), as the property list itself allows", "5/C03"),
+ "C05": ("C", "fault_enumeration", "Simulated interleavings of propose/vote/execute/close over concurrent proposals with payloads that fail when dispatched (injected early/late), call back into the multisig (re-entrancy) or target the other multisig; dispatch log of every successful multisig call compared with what modules and contracts actually received; execute count, lifecycle order, ids and content immutability tracked over all observations; quiescence phase re-executes every still-Passed proposal with faults off.", "as C01; sub-message gas is not metered (out-of-gas = injected late failure); fault placement is sampled (k-th dispatch to a target, early or late), not exhaustive", "5/C05"),
+ "C06": ("C", "exploration", "The simulator keeps the true membership timeline from full ListMembers observations after every transaction, so the start-of-block snapshot is known independently of the contracts' snapshot code; group edits are scheduled before, in the same block as, and after Propose and Vote; every ballot weight, the proposer's implicit ballot and the reported total are compared with that snapshot after every event.", "as C01", "5/C06"),
+ "C09": ("C", "exploration", "Group histories with several edits to one address per block, removals and re-adds, bond/unbond, hooks that fail or re-enter; after every event total == sum of paged members and raw cw4 keys == smart queries; Member{at_height} / TotalWeight{at_height} probed at heights from before instantiation to the future against the simulator's own start-of-block timeline.", "as C01", "5/C09"),
+ "C10": ("C", "exploration", "cw4-stake with native and cw20 stake, tokens_per_weight / min_bond / unbonding period drawn per run, amounts across u128, foreign-token and fake-token attempts, donations; per-call stake/claim relation from in-frame snapshots, Claim checked against the oracle's own unbond ledger and clock, contract holdings == stakes + claims + donations after every event, weight == floor(stake/tpw) in exact arithmetic; quiescence: everyone exits and the contract ends with exactly the donations.", "as C01", "5/C10"),
+ "C14": ("C", "exploration", "Histories of UpdateAdmin/AddHook/RemoveHook/UpdateMembers/bond/unbond by admins, former admins and strangers with Sinks as hooks (some failing, some re-entering as admin); in-frame pre/post snapshots decide who may change what; hook notifications are replayed over the pre-membership and must yield exactly the post-membership, one per registered hook, delivered exactly once.", "as C01", "5/C14"),
+ "C15": ("C", "exploration", "cw3-flex with native and cw20 deposits, refunds on/off: Propose with exact, missing, short, excess and wrong-denom payment; refund messages may appear only in Execute (always) or Close (iff enabled), once per proposal; failed pull/refund injected; quiescence closes/executes everything and requires every promised deposit to have come back.", "as C01; proposal payloads never spend the deposit denomination", "5/C15"),
  "C19": ("A", "exploration", "After every event the single-allowance query, the owner listing and the spender listing are compared for all actor pairs and all listed pairs; migrations from a reconstructed pre-0.14 layout (spender index deleted by storage surgery, old cw2 version) are injected at arbitrary points of live histories.", "pre-0.14 layout reconstructed from migrate(); as C01", "5/C19"),
 }
 NA = {
